@@ -479,3 +479,154 @@ func invControlWriter(c *ControlWriter) bool {
 //@   ensures  [one]  outCalls(c.w.dest) <= old(outCalls(c.w.dest))+1
 //@   ensures  [final] outCalls(c.w.dest) == old(outCalls(c.w.dest))+1 && result == nil ==> outByte(c.w.dest, old(outLen(c.w.dest))) == 0x80|byte(c.w.op) && outLen(c.w.dest) == old(outLen(c.w.dest))+specHdrLen(old(c.w.n), clientSide(c.w.state))+old(c.w.n) && old(c.w.n) <= 125
 //@   assigns *c.w, bytes(c.w.raw), stream(c.w.dest)
+
+// ---------------------------------------------------------------------------
+// UTF-8 validation (C07). specUTF8Step is the automaton read off RFC 3629 §4 (Unicode Table 3-7),
+// written independently of the table in utf8.go. States:
+//
+//	0 accept (between characters), 1 need 1 continuation, 2 need 2, 3 need 3,
+//	4 after E0 (next A0..BF), 5 after ED (next 80..9F), 6 after F0 (next 90..BF), 7 after F4 (next 80..8F), 8 reject.
+func specUTF8Step(s int, b byte) int {
+	cont := b >= 0x80 && b <= 0xbf
+	switch s {
+	case 0:
+		switch {
+		case b <= 0x7f:
+			return 0
+		case b >= 0xc2 && b <= 0xdf:
+			return 1
+		case b == 0xe0:
+			return 4
+		case (b >= 0xe1 && b <= 0xec) || b == 0xee || b == 0xef:
+			return 2
+		case b == 0xed:
+			return 5
+		case b == 0xf0:
+			return 6
+		case b >= 0xf1 && b <= 0xf3:
+			return 3
+		case b == 0xf4:
+			return 7
+		}
+		return 8
+	case 1:
+		if cont {
+			return 0
+		}
+		return 8
+	case 2:
+		if cont {
+			return 1
+		}
+		return 8
+	case 3:
+		if cont {
+			return 2
+		}
+		return 8
+	case 4:
+		if b >= 0xa0 && b <= 0xbf {
+			return 1
+		}
+		return 8
+	case 5:
+		if b >= 0x80 && b <= 0x9f {
+			return 1
+		}
+		return 8
+	case 6:
+		if b >= 0x90 && b <= 0xbf {
+			return 2
+		}
+		return 8
+	case 7:
+		if b >= 0x80 && b <= 0x8f {
+			return 2
+		}
+		return 8
+	}
+	return 8
+}
+
+// absUTF8 maps the table's state numbers to the specification's states.
+func absUTF8(state uint32) int {
+	switch state {
+	case 0:
+		return 0
+	case 24:
+		return 1
+	case 36:
+		return 2
+	case 84:
+		return 3
+	case 48:
+		return 4
+	case 60:
+		return 5
+	case 72:
+		return 6
+	case 96:
+		return 7
+	case 12:
+		return 8
+	}
+	return -1
+}
+
+func validUTF8State(state uint32) bool { return absUTF8(state) >= 0 }
+
+//@ func decode
+//@   props C07 C15
+//@   requires [state] validUTF8State(state)
+//@   ensures  [dfa]   absUTF8(result1) == specUTF8Step(absUTF8(state), b)
+//@   ensures  [valid] validUTF8State(result1)
+//@   assigns nothing
+
+// utf8Fold(s, p, n): the specification state after feeding p[0:n) to the RFC 3629 automaton from
+// state s (interpreted by the VC generator through its step function utf8FoldStep).
+func utf8Fold(s int, p []byte, n int) int {
+	for i := 0; i < n; i++ {
+		s = specUTF8Step(s, p[i])
+	}
+	return s
+}
+
+func utf8FoldStep(s int, b byte) int { return specUTF8Step(s, b) }
+
+//@ func UTF8Reader.Valid
+//@   props C07
+//@   ensures [v] result == (u.state == 0)
+//@   assigns nothing
+
+//@ func UTF8Reader.Accepted
+//@   props C07
+//@   ensures [v] result == u.accepted
+//@   assigns nothing
+
+//@ func NewUTF8Reader
+//@   props C07 C18
+//@   ensures [new] result != nil && result.Source == r && result.state == 0 && result.codep == 0 && result.accepted == 0
+//@   assigns nothing
+
+//@ func UTF8Reader.Reset
+//@   props C07 C18
+//@   ensures [asnew] u.Source == r && u.state == 0 && u.codep == 0 && u.accepted == 0
+//@   assigns *u
+
+//@ func UTF8Reader.Read
+//@   props C07 C04
+//@   requires [src]   u.Source != nil && streamOK(u.Source) && validUTF8State(u.state) && u.state != 12 && notPartOf(p, u) && inErr(u.Source) != ErrInvalidUTF8
+//@   ensures  [n]     0 <= n && n <= len(p)
+//@   ensures  [ok]    err != ErrInvalidUTF8 ==> absUTF8(u.state) == utf8Fold(absUTF8(old(u.state)), p, n) && forall(0, n+1, func(j int) bool { return utf8Fold(absUTF8(old(u.state)), p, j) != 8 })
+//@   ensures  [okn]   err != ErrInvalidUTF8 ==> n <= inEnd(u.Source)-old(inPos(u.Source)) && inPos(u.Source) == old(inPos(u.Source))+n && forall(0, n, func(k int) bool { return p[k] == inByte(u.Source, old(inPos(u.Source))+k) })
+//@   ensures  [rej]   err == ErrInvalidUTF8 ==> u.state == 12 && exists(1, len(p)+1, func(j int) bool { return utf8Fold(absUTF8(old(u.state)), p, j) == 8 })
+//@   ensures  [srcerr] err != nil && err != ErrInvalidUTF8 ==> err == inErr(u.Source) && inPos(u.Source) == inEnd(u.Source)
+//@   ensures  [acc]   err != ErrInvalidUTF8 ==> 0 <= u.accepted && u.accepted <= n && (u.accepted > 0 ==> utf8Fold(absUTF8(old(u.state)), p, u.accepted) == 0)
+//@   ensures  [valid] validUTF8State(u.state) && u.Source == old(u.Source)
+//@   assigns u.state, u.codep, u.accepted, bytes(p), stream(u.Source)
+//@   loop 1 invariant [b] 0 <= i && i <= n && n <= len(p) && validUTF8State(s) && s != 12 && 0 <= accepted && accepted <= i
+//@   loop 1 invariant [run] absUTF8(s) == utf8Fold(absUTF8(old(u.state)), p, i) && forall(0, i+1, func(j int) bool { return utf8Fold(absUTF8(old(u.state)), p, j) != 8 })
+//@   loop 1 invariant [acc] accepted > 0 ==> utf8Fold(absUTF8(old(u.state)), p, accepted) == 0
+//@   loop 1 invariant [same] u.state == old(u.state) && u.Source == old(u.Source)
+//@   loop 1 assigns nothing
+//@   loop 1 decreases n - i
